@@ -72,8 +72,13 @@ class UnhashableError(Exception):
     __hash__ = None
 
 
-def raise_styled(style, cls, msg):
+def raise_styled(style, cls, msg, hook=None):
     """raise `cls(msg)` plain, chained (`from`), inside an except block (context), or as an unhashable class"""
+    if style == "attr-hook" and hook:
+        # what `super().setUp()` raises when no base defines the hook: an AttributeError that names the hook
+        e = AttributeError("'super' object has no attribute %r (%s)" % (hook, msg))
+        e.name = hook
+        raise e
     if style == "cause":
         try:
             raise KeyError("inner of " + msg)
@@ -98,6 +103,18 @@ def raise_styled(style, cls, msg):
     raise cls(msg)
 
 
+def py_death(how):
+    """ways in which a layer hook brings the process down through Python: exceptions the runner lets through"""
+    if how == "pyexit0":
+        raise SystemExit(0)
+    if how == "pyexit3":
+        raise SystemExit(3)
+    if how == "pymemory":
+        raise MemoryError("out of memory in a layer hook")
+    if how == "pyinterrupt":
+        raise KeyboardInterrupt()
+
+
 def _attempt(kind, idx):
     k = _attempts.get((kind, idx), 0)
     _attempts[(kind, idx)] = k + 1
@@ -114,9 +131,10 @@ def make_hooks(idx, spec):
             if spec.get("dieInSetUp"):
                 trace({"ev": "die", "how": spec["dieInSetUp"]})
                 sys.stdout.flush()
+                py_death(spec["dieInSetUp"])
                 os._exit(0 if spec["dieInSetUp"] == "exit0" else 3)
             if raises:
-                raise_styled(spec.get("excStyle"), LayerError, "setUp of layer %d fails (attempt %d)" % (idx, k))
+                raise_styled(spec.get("excStyle"), LayerError, "setUp of layer %d fails (attempt %d)" % (idx, k), hook="setUp")
         hooks["setUp"] = setUp
     if spec["tearDown"]:
         def tearDown(*a):
@@ -130,9 +148,10 @@ def make_hooks(idx, spec):
             if spec.get("dieInTearDown"):
                 trace({"ev": "die", "how": spec["dieInTearDown"]})
                 sys.stdout.flush()
+                py_death(spec["dieInTearDown"])
                 os._exit(0 if spec["dieInTearDown"] == "exit0" else 3)
             if code == 1:
-                raise_styled(spec.get("excStyle"), LayerError, "tearDown of layer %d fails" % idx)
+                raise_styled(spec.get("excStyle"), LayerError, "tearDown of layer %d fails" % idx, hook="tearDown")
             if code == 2:
                 raise NotImplementedError
         hooks["tearDown"] = tearDown
@@ -210,6 +229,10 @@ def do_part(test, ph, part):
     if part.get("chdir"):
         import tempfile
         os.chdir(tempfile.gettempdir())
+    if part.get("warnfilter"):
+        # test code that changes the warning filters and does not restore them
+        import warnings
+        warnings.filterwarnings("ignore", message="ztr world %s" % (ph,))
     exc = part.get("exc")
     if exc and part.get("once"):
         # a test whose outcome depends on state that survives --repeat iterations: it raises only the first
@@ -265,9 +288,14 @@ class Base(unittest.TestCase):
             # a test that saves the standard streams and puts them back when it is over (registered first,
             # so it runs after tearDown and after every other clean-up)
             saved = (sys.stdout, sys.stderr)
+            which = self.spec["rebind"]
 
             def put_back():
-                sys.stdout, sys.stderr = saved
+                # both streams, or only the one the test redirected
+                if which != "err":
+                    sys.stdout = saved[0]
+                if which != "out":
+                    sys.stderr = saved[1]
             self.addCleanup(put_back)
         if self.spec.get("ownstream"):
             # a test that captures its own sys.stdout for its whole duration and puts back what it found
@@ -279,6 +307,10 @@ class Base(unittest.TestCase):
                 sys.stdout = found
             self.addCleanup(put_found_back)
         for k, c in reversed(list(enumerate(self.spec["cleanups"]))):
+            if c.get("exc") == "error" and c.get("excStyle") == "noframes":
+                # a built-in registered as clean-up fails: the traceback has no frame outside unittest
+                self.addCleanup(os.rmdir, os.path.join(HERE, "no-such-directory-%d-%d" % (self.spec["id"], k)))
+                c = dict(c, exc=None)
             self.addCleanup(do_part, self, ["cleanup", k], c)
         do_part(self, ["setUp"], self.spec["setUp"])
 
@@ -306,11 +338,56 @@ def make_test(spec):
     return cls()
 
 
+def make_doctest(spec):
+    """the same script as a doctest: set-up and tear-down functions, one example that runs the body (its writes go
+    to sys.stderr: doctest compares what examples write to sys.stdout), a second example that fails when the
+    script says so"""
+    import doctest
+
+    class Holder:
+        pass
+    holder = Holder()
+    holder.spec = spec
+    # (what the body writes goes to sys.stderr whatever the script says: doctest owns sys.stdout during an example)
+    body = dict(spec["body"], exc=None, writes=[[True, tok] for _, tok in spec["body"]["writes"]])
+
+    def su(dt):
+        do_part(holder, ["setUp"], spec["setUp"])
+
+    def td(dt):
+        do_part(holder, ["tearDown"], spec["tearDown"])
+    src = ">>> _body()\n"
+    if spec["body"].get("exc") == "fail":
+        src += ">>> 1 + 1\n3\n"
+    globs = {"_body": lambda: do_part(holder, ["body"], body)}
+    dt = doctest.DocTestParser().get_doctest(src, globs, "t%d" % spec["id"], "wtests.py", 0)
+
+    class DT(doctest.DocTestCase):
+        def __str__(self):
+            return "t%d (%s)" % (spec["id"], spec.get("module", "wtests"))
+
+        def id(self):
+            return "wtests.DT%d.t%d" % (spec["id"], spec["id"])
+
+        def countTestCases(self):
+            return spec["count"]
+
+        def run(self, result=None):
+            trace({"ev": "tstart", "t": spec["id"]})
+            try:
+                return doctest.DocTestCase.run(self, result)
+            finally:
+                trace({"ev": "tend", "t": spec["id"]})
+    DT.__module__ = "wtests"
+    DT.spec = spec
+    return DT(dt, setUp=su, tearDown=td)
+
+
 def build_suite(node):
     """node: {"t": "leaf", "id"} | {"t": "node", "kids", "lvl", "lyr"}"""
     tests = {t["id"]: t for t in WORLD["tests"]}
     if node["t"] == "leaf":
-        t = make_test(tests[node["id"]])
+        t = make_doctest(tests[node["id"]]) if tests[node["id"]].get("doctest") else make_test(tests[node["id"]])
         if node.get("lyr") is not None:
             t.__class__.layer = LAYERS[node["lyr"]]
         if node.get("lvl") is not None:
